@@ -385,7 +385,8 @@ GROUP = 40          # cases per Reset-delimited execution (a rejected execution 
 
 
 def run_driver(exe, script_lines, wd, tag, nb, env_extra=None, timeout=900):
-    """split the cases into nb scripts of Reset-delimited groups, run the driver on each, return trace files"""
+    """split the cases into nb scripts of Reset-delimited groups, run the driver on each, return trace files.
+       A line may hold several newline-joined requests that must stay together (chains)."""
     traces = []
     env = dict(os.environ)
     if env_extra:
@@ -617,8 +618,9 @@ def library_fastpaths(fmts):
     return res, True
 
 
-def build_row(tc, fs, fm, fd, pres, mpres, rng, origin):
-    """one composite request from a TLC-generated row of abstract pixel tuples"""
+def build_row(tc, fs, fm, fd, pres, mpres, rng, origin, chain=None):
+    """one composite request from a TLC-generated row of abstract pixel tuples; chain = the previous request
+       whose destination this one continues on (same geometry; DST "=")"""
     op, mode, fam, row = tc["op"], tc["mode"], tc["fam"], tc["row"]
     w = len(row)
     narrow = (not fs.wide) and (not fd.wide) and (fm is None or not fm.wide)
@@ -664,6 +666,8 @@ def build_row(tc, fs, fm, fd, pres, mpres, rng, origin):
         mx, mw, msk, mpx = 0, 0, b"", [0] * w
     dx = rng.randrange(max(1, 128 // fd.bpp))          # every alignment within a 16-byte block (SIMD heads / tails)
     dw = dx + w + 1
+    if chain is not None:
+        dx, dw = chain["dx"], chain["dw"]
     dpx = []
     for t in row:
         v = native_from8(fd, *t["d"])
@@ -673,9 +677,11 @@ def build_row(tc, fs, fm, fd, pres, mpres, rng, origin):
     dst = pack_pixels(fd.bpp, dpx, dx, dw, rng)
     line = "C %d %d %d %d %d %d %d %d %d %d %d %d %d %d %d %s %s %s" % (
         op, 1 if mode == "ca" else 0, 0 if fm is None else 1, fs.code, fm.code if fm else 0, fd.code,
-        pres, mpres, sw, sx, mw, mx, dw, dx, w, hx(src), hx(msk), hx(dst))
+        pres, mpres, sw, sx, mw, mx, dw, dx, w, hx(src), hx(msk), "=" if chain is not None else hx(dst))
     keys = [(op, mode, fs.code, fm.code if fm else 0, fd.code, spx[spos(i)], mpx[i], dpx[i]) for i in range(w)]
-    return dict(line=line, op=op, mode=mode, fam=fam, fs=fs.name, fm=fm.name if fm else None, fd=fd.name,
+    if chain is not None:
+        keys = []                   # the destination values are whatever the previous request left
+    return dict(line=line, dx=dx, dw=dw, chained=chain is not None, op=op, mode=mode, fam=fam, fs=fs.name, fm=fm.name if fm else None, fd=fd.name,
                 pres=pres, mpres=mpres, w=w, exact=exact, narrow=narrow, keys=keys, origin=origin)
 
 
@@ -715,6 +721,10 @@ def gen_c01_cases(fmts, tcases, fastpaths, rng, tier):
                 pres = rng.choice([0, 0, 1, 2, 3, 4, 4, 5, 6])
                 mpres = rng.choice([0, 0, 0, 1])
             out.append(build_row(tc, fs, fm, fd, pres, mpres, rng, "class"))
+            if rep == 0 and (k // per_case) % 3 == 0:
+                # a chain: a second operator applied to the destination the first one left (state continuity)
+                tc2 = dict(tc, op=(tc["op"] * 5 + 3) % 13, mode="none")
+                out.append(build_row(tc2, fs, None, fd, 0, 0, rng, "chain", chain=out[-1]))
     # ---- every specialised routine of the implementation chain (and the general path on the same requests)
     by = {}
     for tc in tcases:
@@ -736,6 +746,17 @@ def gen_c01_cases(fmts, tcases, fastpaths, rng, tier):
                 pres = rng.choice([2, 4, 6])
             out.append(build_row(tc, fp["fs"], fp["fm"], fp["fd"], pres, 1 if fp["msolid"] else 0, rng, "fastpath"))
     return out
+
+
+def script_units(cases):
+    """script lines; a chained request is kept on the same unit as its predecessor"""
+    units = []
+    for c in cases:
+        if c.get("chained") and units:
+            units[-1] += "\n" + c["line"]
+        elif not c.get("chained"):
+            units.append(c["line"])
+    return units
 
 
 def run_c01(args):
@@ -780,7 +801,7 @@ def run_c01(args):
     chk.extra["fast_path_combinations"] = len(fastpaths)
     chk.extra["fast_path_list_from_library"] = from_lib
     cases = gen_c01_cases(fmts, tcases, fastpaths, rng, args.tier)
-    lines = [c["line"] for c in cases]
+    lines = script_units(cases)
     chk.sample({"tlc_case_class": {k: (v if k != "row" else v[:2]) for k, v in tcases[len(tcases) // 2].items()}})
     chk.sample({k: v for k, v in cases[1].items() if k not in ("keys", "line")})
     chk.sample({"script_line": lines[1][:300]})
@@ -791,6 +812,7 @@ def run_c01(args):
     chk.extra["rows_by_presentation"] = {str(p): sum(1 for c in cases if c["pres"] == p) for p in range(7)}
     chk.extra["rows_with_solid_mask"] = sum(1 for c in cases if c["mpres"] == 1)
     chk.extra["rows_aimed_at_fast_paths"] = sum(1 for c in cases if c["origin"] == "fastpath")
+    chk.extra["rows_chained_on_previous_destination"] = sum(1 for c in cases if c["origin"] == "chain")
     chk.extra["rows_wide_pipeline_with_mask_and_transformed_source"] = sum(
         1 for c in cases if c["pres"] != 0 and c["mode"] != "none" and (not c["narrow"] or c["op"] in NEEDS_DIV))
     chk.extra["operators"] = len(set(c["op"] for c in cases))
@@ -805,7 +827,7 @@ def run_c01(args):
     traces_g = run_driver(exe, lines, wd, "gen", nb, env_extra=GENERAL_ONLY)
     # the portable C fast paths are shadowed by the SIMD ones in the default chain: run them on their own
     cfast = [c for c in cases if c["origin"] == "fastpath" or args.tier != "quick"]
-    traces_c = run_driver(exe, [c["line"] for c in cfast], wd, "cfp", nb, env_extra=C_FAST_PATHS)
+    traces_c = run_driver(exe, script_units(cfast), wd, "cfp", nb, env_extra=C_FAST_PATHS)
     chk.evaluations = 2 * npx + sum(c["w"] for c in cfast)
 
     # 4. trace validation
